@@ -53,13 +53,20 @@ def run(ctx):
     common.import_spowtd()
     import spowtd.transmissivity as tm
     warnings.simplefilter("ignore")
-    nsets = 40 if ctx.tier == "quick" else 800
+    nsets = 70 if ctx.tier == "quick" else 1000
     ob = "SplineTransmissivity = model tSplineClosed (closed form, 60 digits) within 1e-6 relative"
     for _ in range(nsets):
         zs, ks = hyd.gen_knots(ctx.rng, nmin=2, nmax=8, positive=True)
         if ctx.rng.random() < 0.2:
             i = ctx.rng.randrange(len(ks) - 1)
             ks[i + 1] = ks[i]                 # a segment of constant conductivity
+        if 0.0 in [float(z) for z in zs] and ctx.rng.random() < 0.7:
+            i0 = [float(z) for z in zs].index(0.0)
+            if 0 < i0 < len(zs) - 1:
+                # tight peat below the surface, open acrotelm above it: conductivity jumps by orders of magnitude at the knot
+                ks[i0 - 1] = 10 ** ctx.rng.uniform(-5, -2)
+                ks[i0] = ks[i0 - 1] * 10 ** ctx.rng.uniform(2, 5)
+                ks[i0 + 1] = ks[i0] * 10 ** ctx.rng.uniform(1, 3)
         near_tie = False
         if ctx.rng.random() < 0.25:
             # nearly equal adjacent conductivities (a calibration that has almost converged to a uniform layer,
@@ -86,11 +93,13 @@ def run(ctx):
         lo, hi = zs[0], zs[-1]
         levels = sorted({lo - 100.0, lo - 1e-9, lo, hi} | set(zs) | {ctx.rng.uniform(lo, hi) for _ in range(8)}
                         | {np.nextafter(z, -np.inf) for z in zs[1:]} | {np.nextafter(z, np.inf) for z in zs[:-1]})
+        # a few millimetres above each knot: the integrand has its kink just below the upper limit
+        levels = sorted(set(levels) | {float(z) + d for z in zs[:-1] for d in (0.5, 1.0, 2.0, 5.0)})
         levels = [float(z) for z in levels if z <= hi]
         inp0 = {"zeta_knots_mm": zs, "K_knots_km_d": ks, "minimum_transmissivity_m2_d": tmin}
         try:
             scal = [float(T(z)) for z in levels]
-            la = np.array(levels)
+            la = common.any_layout(ctx.rng, np.array(levels))
             arr = [float(v) for v in T(la)]
             err = None
             if not common.same_as_snapshot(la, np.array(levels)):
